@@ -125,8 +125,12 @@ def make_ops(rng, cfg, profile, tier):
             ops.append({'op': 'ITERATE_SELECTED', 'a': [rng.randrange(1 << 30), rng.randrange(1, 5)]})
         elif r < 0.76:
             ops.append({'op': 'FROM_STRING', 'a': [rng.randrange(1 << 30), rng.randrange(1 << 30)]})
-        elif r < 0.92:
+        elif r < 0.88:
             ops.append({'op': 'EVAL', 'a': [rng.randrange(4)]})
+        elif r < 0.90:
+            ops.append({'op': 'BAD_CATALOG', 'a': [rng.randrange(64), rng.randrange(1 << 16)]})
+        elif r < 0.92:
+            ops.append({'op': 'CENTRAL_MAX', 'a': []})
         else:
             ops.append({'op': 'BIOGEME', 'a': [rng.randrange(1 << 30)]})
     return ops
@@ -389,6 +393,41 @@ class Session:
             self.model = dict(target)
             self.check_state(f'{kind} (second request of the same configuration)')
             ctx.log(kind, the_id)
+        elif kind == 'BAD_CATALOG':
+            # a catalog listing the alternatives of a shared controller in another order would silently take the wrong
+            # alternative: it must be refused
+            import biogeme.expressions as ex
+            from biogeme.catalog import Catalog
+            from biogeme.expressions import NamedExpression
+            cn = [c for c in self.used_ctrls if c in self.controllers]
+            c = cn[a[0] % len(cn)]
+            names = list(self.member_names[c])
+            perm = list(names)
+            random.Random(a[1]).shuffle(perm)
+            if perm == names:
+                perm = names[::-1]
+            if perm == names:
+                ctx.log(kind, 'skip-size-1')
+            else:
+                named = [NamedExpression(name=n_, expression=ex.Numeric(float(j))) for j, n_ in enumerate(perm)]
+                try:
+                    Catalog('bad_order', named, controlled_by=self.controllers[c])
+                except BiogemeError:
+                    ctx.count('refused')
+                else:
+                    ctx.fail('I16.refuse', f'a catalog listing the alternatives of controller {c} as {perm} (the controller has '
+                                           f'{names}) was accepted')
+                ctx.log(kind, c)
+        elif kind == 'CENTRAL_MAX':
+            from biogeme.controller import CentralController
+            want = self.product_ids()
+            cc = CentralController(self.expr, maximum_number_of_configurations=len(want))
+            if cc.all_configurations is None or {c_.get_string_id() for c_ in cc.all_configurations} != want:
+                ctx.fail('I16.product', f'a central controller allowed {len(want)} configurations does not enumerate the '
+                                        f'{len(want)} combinations of the formula')
+            if cc.number_of_configurations() != len(want):
+                ctx.fail('I16.product', f'number_of_configurations()={cc.number_of_configurations()} for {len(want)} combinations')
+            ctx.log(kind, len(want))
         elif kind == 'SELECT':
             c = self.used_ctrls[a[0] % len(self.used_ctrls)]
             idx = a[1]
